@@ -30,9 +30,10 @@ def run_case(case, rng):
     fam = rng.choice(["any", "proper", "proper"])
     n_max = 12 if case.tier == "thorough" and rng.random() < 0.3 else 7
     if fam == "any":
-        sp = G.random_spec(rng, "any", n_max=n_max)
+        sp = G.random_spec(rng, "any", n_max=n_max, reward_scale=rng.choice([1.0, 1.0, 1.0, 30.0, 1000.0]))
     else:
-        sp = G.random_spec(rng, "proper", n_max=n_max, allow_implicit=False)
+        sp = G.random_spec(rng, "proper", n_max=n_max, allow_implicit=False,
+                           reward_scale=rng.choice([1.0, 1.0, 1.0, 30.0, 1000.0]))
     rep = rng.choice(["subclass", "quicktabular"])
     G.restrict_to_closure(sp, rng)
     sp.init = [(s, p) for s, p in sp.init if p > 0]
